@@ -180,22 +180,40 @@ def size_forms(ctx):
         "envelope": App("len", (App("call", (rpbd, envcls, App("idx", (OBJ, Const("envelope"))))),)),
         "file_direct": App("call:int", (App("filetext", (App("idx", (OBJ, Const("file_direct"))),)),)),
     }
-    got = {}
-    for o in outs:
-        if o.kind != "return":
-            continue
-        form = guard_form([(c.args[0], False) if (isinstance(c, App) and c.op == "not") else (c, True) for c in o.conds], OBJ)
-        v = o.value
-        arg = v.args[-1] if isinstance(v, App) and v.op in ("call", "supercall:from_obj") else None
-        got[form] = (arg, v, o)
-    for form, w in want.items():
-        arg, v, o = got.get(form, (None, None, None))
-        R.check("C05-D1c size forms", arg == w, form, mod=fi.module, node=o.node if o else fi.node, function=fq, expected=repr(w), found=repr(arg)[:220],
-                key_extra=form)
-    rej = [x for x in outs if x.kind == "raise"]
+    # case analysis: the form is the first of raw / file / envelope / file_direct that the description has; under each case every
+    # normal outcome that can be taken hands exactly the reference value to the integer constructor (one return per form or one
+    # return of a selected value alike)
+    order = ["raw", "file", "envelope", "file_direct"]
+    base = {App("isinstance", (OBJ, Ref("builtin", "dict"))): True}
+    seen_forms = set()
+    for i_, form in enumerate(order):
+        facts = dict(base)
+        for j_, k_ in enumerate(order):
+            if j_ < i_:
+                facts[App("in", (Const(k_), OBJ))] = False
+            elif j_ == i_:
+                facts[App("in", (Const(k_), OBJ))] = True
+        taken = generic.taken_outcomes(outs, facts, strict=False)
+        got = []
+        node_ = fi.node
+        for o in taken:
+            if o.kind != "return":
+                got.append(App("raises", (Const(o.kind),)))
+                continue
+            for v in generic.select_alternatives(o.value, facts):
+                got.append(v.args[-1] if isinstance(v, App) and v.op in ("call", "supercall:from_obj") and v.args else v)
+        if got and all(g_ == want[form] for g_ in got):
+            seen_forms.add(form)
+        R.check("C05-D1c size forms", bool(got) and all(g_ == want[form] for g_ in got), form, mod=fi.module, node=node_, function=fq,
+                expected=repr(want[form]), found=f"{[repr(g_)[:160] for g_ in got if g_ != want[form]][:2]}", key_extra=form)
     R.rule("C05-D1d unknown size form rejected", 1, "other forms raise")
-    R.check("C05-D1d unknown size form rejected", len(rej) == 2 and set(got) == set(want), "ValueError for non-dict / unknown form", mod=fi.module,
-            node=fi.node, function=fq, expected="two rejecting paths, four forms", found=f"{len(rej)} rejecting, forms {sorted(map(str, got))}")
+    none_facts = {**base, **{App("in", (Const(k_), OBJ)): False for k_ in order}}
+    rej_unknown = generic.taken_outcomes(outs, none_facts, strict=False)
+    rej_nondict = generic.taken_outcomes(outs, {App("isinstance", (OBJ, Ref("builtin", "dict"))): False}, strict=False)
+    R.check("C05-D1d unknown size form rejected", bool(rej_unknown) and all(x.kind == "raise" for x in rej_unknown) and bool(rej_nondict)
+            and all(x.kind == "raise" for x in rej_nondict) and seen_forms == set(order), "ValueError for non-dict / unknown form", mod=fi.module,
+            node=fi.node, function=fq, expected="a description that is not a dict or has none of the four keys is rejected",
+            found=f"unknown form: {[x.kind for x in rej_unknown]}; not a dict: {[x.kind for x in rej_nondict]}; forms {sorted(seen_forms)}")
 
 
 def payload_forms(ctx):
